@@ -50,10 +50,10 @@ PLAN = {
         "assumptions": ["Some(null) == absent for optional members (the property's own equivalence)"],
     },
     "C14": {
-        "pkg": ["vts", "vh"],
+        "pkg": ["vts", "vh", "vsy"],
         "level": "model_checking",
-        "parts": [part("mc_server", "c14", q=16, t=16, tq=200, tt=2400)],
-        "assumptions": ["idle workers are interchangeable (any parked worker may take the next queued message)", "jobs are long-lived connections that end when the environment says so"],
+        "parts": [part("mc_server", "c14", q=16, t=16, tq=200, tt=2400), part("mc_sync", "c14s", q=16, t=16, tq=200, tt=2400)],
+        "assumptions": ["sync-granularity part: the pool's shared state is reached only through std::sync RwLock / Mutex / atomics / mpsc (those operations are the scheduling points; sequentially consistent atomics are assumed, weaker orderings are not modelled)", "idle workers are interchangeable (any parked worker may take the next queued message)", "jobs are long-lived connections that end when the environment says so"],
     },
     "C13": {
         "pkg": ["vts", "vh"],
